@@ -354,6 +354,61 @@ func (stubClient) PerformTransaction(*stun.Message, net.Addr, bool) (client.Tran
 }
 func (stubClient) OnDeallocated(net.Addr) {}
 
+// runC10BindHostile hands BindConnection a reply whose header announces a length at the uint16
+// extremes (or any other length) that the stream then does or does not honour. The reference
+// outcome: a STUN header announcing L body bytes is answered by reading exactly L more bytes;
+// if the stream ends earlier the call returns an error; it never panics, and it never reads
+// past the announced message.
+func runC10BindHostile(rng *rand.Rand, rec *sim.Rec, alloc *client.TCPAllocation, caseNo int) {
+	lens := []int{0xFFEC, 0xFFED, 0xFFF0, 0xFFF3, 0xFFF4, 0xFFFC, 0xFFFF, 0xFFE8, 0xFFEB, 0x8000, 0x7FFC, 0, 4, 3, 1}
+	l := lens[caseNo%len(lens)]
+	tid := [12]byte{}
+	rng.Read(tid[:])
+	hdr := make([]byte, 20)
+	// ConnectionBind success (0x010b) or error (0x011b) response, magic cookie, tid
+	typ := []uint16{0x010b, 0x011b, 0x0101, 0x0001}[rng.Intn(4)]
+	hdr[0], hdr[1] = byte(typ>>8), byte(typ)
+	hdr[2], hdr[3] = byte(l>>8), byte(l)
+	hdr[4], hdr[5], hdr[6], hdr[7] = 0x21, 0x12, 0xA4, 0x42
+	copy(hdr[8:], tid[:])
+	// the stream carries: nothing more / a short body / the full body / the full body + app bytes
+	avail := []int{0, rng.Intn(64), l, l + 1 + rng.Intn(30)}[rng.Intn(4)]
+	body := make([]byte, avail)
+	rng.Read(body)
+	stream := append(hdr, body...)
+	var cuts []int
+	for k := rng.Intn(4); k > 0 && len(stream) > 1; k-- {
+		cuts = append(cuts, 1+rng.Intn(len(stream)-1))
+	}
+	sortInts(cuts)
+	sc := &scriptConn{chunks: cutStream(stream, cuts)}
+	dc := &client.TCPConn{TCPConn: sc}
+	var err error
+	panicked := false
+	func() {
+		defer func() {
+			if r := recover(); r != nil {
+				panicked = true
+				rec.Violate("framer-panic", fmt.Sprintf("BindConnection/len=%#x", l), "BindConnection panicked on a reply header announcing %#x body bytes (%d available, cuts %v): %v", l, avail, cuts, r)
+			}
+		}()
+		err = alloc.BindConnection(dc, 7)
+	}()
+	if panicked {
+		return
+	}
+	if avail < l && err == nil {
+		rec.Violate("bind-seg-dependent", "short-accepted", "BindConnection succeeded although the stream ended %d bytes into a %#x-byte body", avail, l)
+	}
+	rest, _ := io.ReadAll(sc)
+	if avail > l && len(rest) != avail-l {
+		rec.Violate("bind-consumed-app-bytes", "hostile", "reply announced %#x body bytes, %d followed it; after BindConnection %d remain readable (want %d) err=%v", l, avail-l, len(rest), avail-l, err)
+	}
+	rec.Ev("bind-hostile-replies")
+	rec.FP("bind-hostile/len=%#x/avail=%s/err=%v", l, map[bool]string{true: "short", false: "full"}[avail < l], err != nil)
+	rec.SetSample(map[string]any{"announced": l, "available": avail, "err": fmt.Sprint(err)})
+}
+
 func runC10Bind(t *testing.T, rng *rand.Rand, rec *sim.Rec, tier string, caseNo int) {
 	alloc := client.NewTCPAllocation(&client.AllocationConfig{
 		Client: stubClient{}, RelayedAddr: &net.TCPAddr{IP: net.IPv4(10, 0, 0, 2), Port: 4000},
@@ -362,6 +417,13 @@ func runC10Bind(t *testing.T, rng *rand.Rand, rec *sim.Rec, tier string, caseNo 
 		Integrity: stun.NewLongTermIntegrity("u", "r", "p"), Log: logging.NewDefaultLoggerFactory().NewLogger("x"),
 	})
 	defer alloc.Close() //nolint:errcheck
+	if caseNo%4 == 3 {
+		for k := 0; k < 15; k++ {
+			runC10BindHostile(rng, rec, alloc, caseNo/4+k)
+		}
+
+		return
+	}
 	success := caseNo%3 != 0
 	tid := [12]byte{}
 	rng.Read(tid[:])
